@@ -243,6 +243,14 @@ fn check_meta(enc0: &'static Encoding, label: &str, second_label: Option<&str>, 
 
 /// `http_equiv`: the first declaration is written as `<meta http-equiv="Content-Type" content="text/html; charset=L">`.
 fn check_meta_form(enc0: &'static Encoding, label: &str, second_label: Option<&str>, cuts: &[usize], scan_mode: bool, unit: &[u8], http_equiv: bool) -> Option<String> {
+    check_meta_syntax(enc0, label, second_label, cuts, scan_mode, unit, http_equiv as u8)
+}
+
+/// `form`: how the first declaration is written. 0 `<meta charset=L>`, 1 http-equiv + content,
+/// 2 upper case, 3 other attributes around a single-quoted charset, 4 self-closing syntax,
+/// 5 content before http-equiv, 6 upper-case http-equiv value and no space after the semicolon.
+fn check_meta_syntax(enc0: &'static Encoding, label: &str, second_label: Option<&str>, cuts: &[usize], scan_mode: bool, unit: &[u8], form: u8) -> Option<String> {
+    let http_equiv = form == 1;
     let unit0: Vec<u8> = unit.to_vec();
     let labels: Vec<&str> = std::iter::once(label).chain(second_label).collect();
     // document: T0 <meta l1> T1 [<meta l2> T2]
@@ -255,6 +263,16 @@ fn check_meta_form(enc0: &'static Encoding, label: &str, second_label: Option<&s
         d.extend_from_slice(
             if i == 0 && http_equiv {
                 format!("<meta http-equiv=\"Content-Type\" content=\"text/html; charset={l}\">")
+            } else if i == 0 && form == 2 {
+                format!("<META CHARSET=\"{l}\">")
+            } else if i == 0 && form == 3 {
+                format!("<meta name=x  charset='{l}' content=y>")
+            } else if i == 0 && form == 4 {
+                format!("<meta charset=\"{l}\"/>")
+            } else if i == 0 && form == 5 {
+                format!("<meta content=\"text/html; charset={l}\" http-equiv=\"Content-Type\">")
+            } else if i == 0 && form == 6 {
+                format!("<meta http-equiv=CONTENT-TYPE content='text/html;charset={l}'>")
             } else if i == 0 {
                 format!("<meta charset={l}>")
             } else {
@@ -406,7 +424,8 @@ pub fn replay(case: &Value) -> Option<String> {
         "meta" => {
             let cuts: Vec<usize> = serde_json::from_value(case["cuts"].clone()).ok()?;
             let unit = case["unit"].as_str().map(unhex).unwrap_or_else(|| vec![0xE9]);
-            check_meta_form(enc, case["label"].as_str()?, case["label2"].as_str(), &cuts, case["scan_mode"].as_bool().unwrap_or(false), &unit, case["http_equiv"].as_bool().unwrap_or(false))
+            let form = case["form"].as_u64().map(|f| f as u8).unwrap_or(case["http_equiv"].as_bool().unwrap_or(false) as u8);
+            check_meta_syntax(enc, case["label"].as_str()?, case["label2"].as_str(), &cuts, case["scan_mode"].as_bool().unwrap_or(false), &unit, form)
         }
         _ => None,
     }
@@ -655,6 +674,30 @@ pub fn run_check(ctx: &Ctx) -> i32 {
         }
     }
     ctx.level_done("(c) 3 initial encodings x 10 meta charset labels (incl. non-ASCII-compatible ones, which must be ignored) x {charset attribute, http-equiv content} x {single, followed by a second declaration} x {text captured, tag-scan mode} x 4 non-ASCII units (malformed in UTF-8 / well-formed in UTF-8 and in the legacy encodings) x every cut");
+    // (c') other spellings of the declaration, label aliases
+    for enc0 in [encoding_rs::UTF_8, encoding_rs::WINDOWS_1252] {
+        for l in ["windows-1251", "shift_jis", "x-sjis", "utf8", "l1", "UTF-16", "bogus-label", "KOI8-R"] {
+            for unit in [&[0xE9u8][..], &[0xC3, 0xA9]] {
+                for form in 2u8..=6 {
+                    let doc_len = 7 + 2 * unit.len() + 70 + l.len();
+                    let mut cutsets: Vec<Vec<usize>> = vec![vec![]];
+                    cutsets.extend((1..doc_len).map(|c| vec![c]));
+                    for cuts in cutsets {
+                        ctx.exec(cuts.len() + 2);
+                        ctx.validated(1);
+                        for scan_mode in [false, true] {
+                            if let Some(msg) = check_meta_syntax(enc0, l, None, &cuts, scan_mode, unit, form) {
+                                let case = json!({"kind": "meta", "encoding": enc0.name(), "label": l, "label2": null, "cuts": cuts, "scan_mode": scan_mode, "unit": hex(unit), "form": form});
+                                let c2 = case.clone();
+                                ctx.violation(msg, case, &|| replay(&c2));
+                            }
+                        }
+                    }
+                }
+            }
+        }
+    }
+    ctx.level_done("(c') 5 further spellings of the declaration (upper case, other attributes around it, self-closing, content before http-equiv, upper-case http-equiv value without a space) x 8 labels (aliases x-sjis, utf8, l1) x 2 initial encodings x 2 units x every cut x {text captured, tag-scan mode}");
     ctx.finish(
         "model_checking",
         RULE,
